@@ -404,9 +404,12 @@ def check_property(pid, tier):
             # failing input; passing tests decide nothing and the unit stays undecided.
             import replay
             for m in replay._registry(VERIF):
-                u = m.get('unit')
-                if not u or not any(x.startswith(u + ':') for x in undecided):
+                us = m.get('unit')
+                us = [us] if isinstance(us, str) else (us or [])
+                hit = [uu for uu in us if any(x.startswith(uu + ':') for x in undecided)]
+                if not hit:
                     continue
+                u = hit[0]
                 tests = m.get('tests', {})
                 if tests and not any(pid in ps for ps in tests.values()):
                     continue
@@ -425,9 +428,9 @@ def check_property(pid, tier):
                 extra.append(dict(obligations={}, failed=[fl], undecided=[], trusted=[],
                                   bounded=[dict(harness='replay:' + m['file'], bound='the concrete inputs of the test module', status='failed', claim=fl['text'])],
                                   backend=dict(unit='replay:' + m['file'], backend='cargo test (bounded stand-in)', wall_s=None, cmd='cargo test %s' % m['filter'], complete=False)))
-                for x in [x for x in undecided if x.startswith(u + ':')]:
+                for x in [x for x in undecided if any(x.startswith(uu + ':') for uu in hit)]:
                     print('NOTE: property=%s Verus could not decide (%s); the replay tests of the unit found a failing input' % (pid, x.split('\n')[0][:200]))
-                undecided = [x for x in undecided if not x.startswith(u + ':')]
+                undecided = [x for x in undecided if not any(x.startswith(uu + ':') for uu in hit)]
         import kani_runner
         if not undecided:
             extra += kani_runner.run_for(pid, pc, tier, workdir, REPO, seed)
@@ -471,9 +474,9 @@ def check_property(pid, tier):
                 if not ran:
                     e['undecided'].append('replay module %s did not run: %s' % (m['file'], tail[-300:]))
                 for (t, msg, at) in fails[:3]:
-                    e['failed'].append(dict(ob='%s.replay.%s' % (m.get('unit', 'replay'), t), fn=t, kind='replay-bounded',
+                    e['failed'].append(dict(ob='%s.replay.%s' % (_unit_name(m), t), fn=t, kind='replay-bounded',
                                             message='replay test failed on the real code: %s (at %s)' % (msg, at), text='registered replay test %s of %s' % (t, m['file']),
-                                            serves=[pid], rendered='%s: %s (%s)' % (t, msg, at), unit=m.get('unit', 'replay'), cex=[dict(test=t, message=msg, at=at)]))
+                                            serves=[pid], rendered='%s: %s (%s)' % (t, msg, at), unit=_unit_name(m), cex=[dict(test=t, message=msg, at=at)]))
                 extra.append(e)
         violations = []
         known_hits = []
@@ -536,6 +539,11 @@ def check_property(pid, tier):
         return rc
     finally:
         shutil.rmtree(workdir, ignore_errors=True)
+
+
+def _unit_name(m):
+    u = m.get('unit', 'replay')
+    return u if isinstance(u, str) else (u[0] if u else 'replay')
 
 
 def _match_known(known, ob):
